@@ -90,6 +90,122 @@ Lemma remove_sp_id s : forallb (fun c => negb (N.eqb c 32)) s = true -> remove_s
 Proof. apply filter_id. Qed.
 
 (* ================================================================================================ *)
+(* 1a. values for the FILE path: only "\n" and "\r" end a line for file.readlines(), so a value may contain  *)
+(*     the other eight str.splitlines boundaries (\x0b \x0c \x1c \x1d \x1e \x85 U+2028 U+2029) strictly inside.   *)
+(*     wf_field_rl v := strip v = v  /\  no "\n", no "\r" in v.   (wf_field of Proofs/Meta.v additionally      *)
+(*     excludes those eight characters: needed for parse_str / splitlines only.)                            *)
+(* ================================================================================================ *)
+Definition wf_field_rl (v : text) : Prop := wf_value v /\ no_nlcr v = true.
+Definition wf_fields_rl (m : meta) : Prop :=
+  wf_field_rl (file_name m) /\ wf_field_rl (title m) /\ wf_field_rl (description m) /\ wf_field_rl (data_type m) /\
+  wf_field_rl (modification_type m) /\ wf_field_rl (relates_to m) /\ wf_field_rl (related_files m) /\
+  wf_field_rl (publication_date m) /\ wf_field_rl (modification_date m).
+Definition wf_names_rl (d : list (N * text)) : Prop :=
+  Forall (fun p => wf_field_rl (snd p)) d /\ NoDup (keys d).
+
+Lemma wf_field_weaken v : wf_field v -> wf_field_rl v.
+Proof. intros [A B]. split; [exact A|now apply no_break_no_nlcr]. Qed.
+Lemma wf_fields_weaken m : wf_fields m -> wf_fields_rl m.
+Proof.
+  intros (H1 & H2 & H3 & H4 & H5 & H6 & H7 & H8 & H9). repeat split; try apply H1; try apply H2; try apply H3;
+  try apply H4; try apply H5; try apply H6; try apply H7; try apply H8; try apply H9;
+  apply no_break_no_nlcr; first [apply H1|apply H2|apply H3|apply H4|apply H5|apply H6|apply H7|apply H8|apply H9].
+Qed.
+Lemma wf_names_weaken d : wf_names d -> wf_names_rl d.
+Proof.
+  intros [F D]. split; [|exact D]. eapply Forall_impl; [|exact F]. intros p. apply wf_field_weaken.
+Qed.
+
+Lemma no_nlcr_no_nl v : no_nlcr v = true -> forallb (fun c => negb (N.eqb c 10)) v = true.
+Proof.
+  unfold no_nlcr. apply forallb_impl. intros c H. now apply andb_true_iff in H as [H _].
+Qed.
+
+Theorem metadata_roundtrip_rl au m m' :
+  wf_fields_rl m -> parse_meta_lines au m' (meta_lines m) = Ok (copy_fields m m').
+Proof.
+  intros (H1 & H2 & H3 & H4 & H5 & H6 & H7 & H8 & H9).
+  unfold parse_meta_lines, meta_lines. cbn [fold_left rbind].
+  rewrite parse_line_file_name by apply H1. cbn [rbind].
+  rewrite parse_line_title by apply H2. cbn [rbind].
+  rewrite parse_line_description by apply H3. cbn [rbind].
+  rewrite parse_line_data_type by apply H4. cbn [rbind].
+  rewrite parse_line_modification_type by apply H5. cbn [rbind].
+  rewrite parse_line_relates_to by apply H6. cbn [rbind].
+  rewrite parse_line_related_files by apply H7. cbn [rbind].
+  rewrite parse_line_publication_date by apply H8. cbn [rbind].
+  rewrite parse_line_modification_date by apply H9. reflexivity.
+Qed.
+
+(* re.match(name pattern, stripped line): the final "rest of line" group stops at "\n" only *)
+Lemma match_name_line_rl prefix a nm :
+  forallb (fun c => negb (N.eqb c 10)) nm = true ->
+  match_name prefix (name_key prefix a ++ spv nm) = Some (a, nm).
+Proof.
+  intros Hb. unfold match_name, name_key. rewrite <- !app_assoc. rewrite startswith_app.
+  unfold drop. rewrite skipn_app_exact. simpl app.
+  rewrite span_digits_app; [|apply show_N_digits|reflexivity].
+  pose proof (show_N_nonempty a) as Hne. destruct (show_N a) as [|d0 dr] eqn:Ed; [easy|].
+  rewrite <- Ed. rewrite read_show_N.
+  assert (U : upto_nl nm = nm) by (now apply upto_nl_id).
+  destruct nm as [|c r]; [reflexivity|]. unfold spv. now rewrite U.
+Qed.
+
+Lemma parse_line_alt_name_rl au m a nm : wf_value nm -> forallb (fun c => negb (N.eqb c 10)) nm = true ->
+  parse_metadata au m (strip (name_line alt_name_prefix a nm)) =
+  rmap (fun nm' => set_alt_names m (assoc_set N.eqb a nm' (alt_names m)))
+       (corrected_name au nm (values (alt_names m)) (reserved m)).
+Proof.
+  intros Hv Hb. rewrite strip_name_line; [|reflexivity|exact Hv].
+  pose proof (match_name_line_rl alt_name_prefix a nm Hb) as M.
+  unfold parse_metadata. rewrite M. clear M.
+  unfold name_key, alt_name_prefix. rewrite <- !app_assoc.
+  remember (show_N a ++ [58%N] ++ spv nm) as Y. cbn -[corrected_name]. reflexivity.
+Qed.
+
+Theorem alt_names_roundtrip_rl m' d :
+  Forall (fun p => wf_field_rl (snd p)) d ->
+  parse_meta_lines false m' (alt_name_lines d) = Ok (set_alt_names m' (set_all d (alt_names m'))).
+Proof.
+  unfold parse_meta_lines. revert m'. induction d as [|[a nm] r IH]; intros m' H.
+  - cbn. destruct m'; reflexivity.
+  - inversion H as [|? ? [Hv Hb] Hr]; subst. cbn [alt_name_lines map fold_left rbind fst snd].
+    cbn [fst snd] in *. rewrite parse_line_alt_name_rl; [|exact Hv|now apply no_nlcr_no_nl].
+    unfold corrected_name. cbn [andb rmap].
+    fold (alt_name_lines r). rewrite (IH _ Hr). reflexivity.
+Qed.
+
+Corollary alt_names_roundtrip_fresh_rl m' d :
+  wf_names_rl d -> alt_names m' = [] ->
+  parse_meta_lines false m' (alt_name_lines d) = Ok (set_alt_names m' d).
+Proof.
+  intros [Hf Hn] E. rewrite alt_names_roundtrip_rl by exact Hf. rewrite E.
+  rewrite set_all_fresh; [reflexivity|exact Hn].
+Qed.
+
+Lemma show_N_no_nlcr n : no_nlcr (show_N n) = true.
+Proof. apply no_break_no_nlcr, show_N_no_break. Qed.
+
+Lemma meta_lines_no_nlcr m : wf_fields_rl m -> forallb no_nlcr (meta_lines m) = true.
+Proof.
+  intros (H1 & H2 & H3 & H4 & H5 & H6 & H7 & H8 & H9).
+  unfold meta_lines. cbn [forallb]. unfold wf_field_rl, no_nlcr in *.
+  rewrite !forallb_app. cbn [forallb lit].
+  destruct H1 as [_ ->], H2 as [_ ->], H3 as [_ ->], H4 as [_ ->], H5 as [_ ->], H6 as [_ ->],
+           H7 as [_ ->], H8 as [_ ->], H9 as [_ ->]. reflexivity.
+Qed.
+
+Lemma alt_name_lines_no_nlcr d :
+  Forall (fun p => wf_field_rl (snd p)) d -> forallb no_nlcr (alt_name_lines d) = true.
+Proof.
+  induction 1 as [|[a nm] r [Hv Hb] Hr IH]; [reflexivity|].
+  cbn [alt_name_lines map forallb fst snd]. fold (alt_name_lines r). rewrite IH, andb_true_r.
+  pose proof (show_N_no_nlcr a) as D.
+  unfold name_line, name_key, no_nlcr in *. rewrite !forallb_app. cbn [forallb].
+  cbn [snd] in Hb. rewrite Hb, D. reflexivity.
+Qed.
+
+(* ================================================================================================ *)
 (* 1b. the header loop of MatchingInstance.parse on written header lines                            *)
 (* ================================================================================================ *)
 Lemma wmd_header_cons ac m ne l r :
@@ -159,7 +275,7 @@ Proof.
     + intros C. apply app_eq_nil in C as [_ C]. contradiction.
 Qed.
 
-Lemma meta_lines_hdr_ok m : wf_fields m -> Forall hdr_ok (meta_lines m).
+Lemma meta_lines_hdr_ok m : wf_fields_rl m -> Forall hdr_ok (meta_lines m).
 Proof.
   intros (H1 & H2 & H3 & H4 & H5 & H6 & H7 & H8 & H9). unfold meta_lines.
   repeat (apply Forall_cons; [unfold hdr_ok; rewrite strip_kv;
@@ -182,7 +298,7 @@ Proof.
   now rewrite spv_show_N.
 Qed.
 
-Lemma alt_name_lines_hdr_ok d : Forall (fun p => wf_field (snd p)) d -> Forall hdr_ok (alt_name_lines d).
+Lemma alt_name_lines_hdr_ok d : Forall (fun p => wf_field_rl (snd p)) d -> Forall hdr_ok (alt_name_lines d).
 Proof.
   induction 1 as [|[a nm] r [Hv Hb] Hr IH]; [constructor|].
   cbn [alt_name_lines map fst snd]. constructor; [|exact IH].
@@ -363,6 +479,23 @@ Section WmdProofs.
   (* ... whose weights are all printed and read back faithfully *)
   Definition wf_wmd (i : winst) : Prop := wf_core i /\ Forall good_e (w_weights i).
 
+  (* the same with the weaker condition on text values that suffices for the file path (wf_field_rl) *)
+  Definition wf_core_rl (i : winst) : Prop :=
+    data_type (w_meta i) = lit "wmd" /\
+    wf_fields_rl (w_meta i) /\ wf_names_rl (alt_names (w_meta i)) /\
+    wf_nmap (w_nodes i) /\ wf_weights i /\
+    w_num_edges i = N.of_nat (List.length (all_edges (w_nodes i))) /\
+    all_edges (w_nodes i) <> [].
+  Definition wf_wmd_rl (i : winst) : Prop := wf_core_rl i /\ Forall good_e (w_weights i).
+
+  Lemma wf_core_weaken i : wf_core i -> wf_core_rl i.
+  Proof.
+    intros (Hdt & Hf & Hn & R). split; [exact Hdt|]. split; [now apply wf_fields_weaken|].
+    split; [now apply wf_names_weaken|exact R].
+  Qed.
+  Lemma wf_wmd_weaken i : wf_wmd i -> wf_wmd_rl i.
+  Proof. intros [H G]. split; [now apply wf_core_weaken|exact G]. Qed.
+
   Lemma sorted_weights_good i : Forall good_e (w_weights i) -> Forall good_e (wlist (w_weights i) (edge_keys (w_nodes i))).
   Proof.
     intros H. rewrite Forall_forall in *. intros e He. apply H. now apply wlist_In in He.
@@ -392,17 +525,29 @@ Section WmdProofs.
     apply eline_no_break. apply sorted_weights_good in Hgood. rewrite Forall_forall in Hgood. now apply Hgood.
   Qed.
 
+  Lemma file_lines_no_nlcr i : wf_wmd_rl i -> forallb no_nlcr (file_lines i) = true.
+  Proof.
+    intros [(_ & Hf & [Hn _] & _) Hgood]. unfold file_lines, header_lines. rewrite !forallb_app.
+    rewrite meta_lines_no_nlcr by exact Hf. rewrite alt_name_lines_no_nlcr by exact Hn.
+    destruct (count_lines_no_break (num_alternatives (w_meta i)) (w_num_edges i)) as [A B].
+    apply no_break_no_nlcr in A. apply no_break_no_nlcr in B.
+    cbn [forallb]. rewrite A, B. cbn [andb].
+    unfold elines. rewrite forallb_forall. intros l Hl. apply in_map_iff in Hl as [e [<- He]].
+    apply no_break_no_nlcr, eline_no_break. apply sorted_weights_good in Hgood. rewrite Forall_forall in Hgood.
+    now apply Hgood.
+  Qed.
+
   (* ============================================================================================== *)
   (* 5. parsing the written lines                                                                   *)
   (* ============================================================================================== *)
   Lemma reparsed_meta_eq M d na :
-    wf_names d -> d = alt_names M -> na = num_alternatives M ->
+    wf_names_rl d -> d = alt_names M -> na = num_alternatives M ->
     let m := set_alt_names (set_num_alternatives (copy_fields M (meta0 (lit "wmd"))) na) d in
     set_num_voters m (num_alternatives m) = reparsed_meta M.
   Proof. intros _ -> ->. destruct M. reflexivity. Qed.
 
   (* t: what the line splitter leaves at the end of each line ("\n" for readlines, "" for splitlines) *)
-  Lemma header_file_lines t i : forallb is_space t = true -> wf_wmd i ->
+  Lemma header_file_lines_rl t i : forallb is_space t = true -> wf_wmd_rl i ->
     wmd_header false (meta0 (lit "wmd")) 0 (map (fun l => l ++ t) (file_lines i)) =
     Ok (set_alt_names (set_num_alternatives (copy_fields (w_meta i) (meta0 (lit "wmd"))) (num_alternatives (w_meta i)))
                       (alt_names (w_meta i)),
@@ -419,7 +564,7 @@ Section WmdProofs.
     { destruct es; [contradiction|discriminate]. }
     (* the nine metadata lines *)
     rewrite (wmd_header_meta false t (meta_lines M) Ht _ (copy_fields M (meta0 (lit "wmd"))));
-      [|now apply meta_lines_hdr_ok|discriminate|now apply metadata_roundtrip].
+      [|now apply meta_lines_hdr_ok|discriminate|now apply metadata_roundtrip_rl].
     (* NUMBER ALTERNATIVES *)
     destruct (count_alts_hdr_ok (num_alternatives M)) as [A1 A2].
     rewrite (wmd_header_step_meta false _ _ _ _ (set_num_alternatives (copy_fields M (meta0 (lit "wmd"))) (num_alternatives M)));
@@ -435,7 +580,7 @@ Section WmdProofs.
     rewrite (wmd_header_meta false t (alt_name_lines (alt_names M)) Ht _
                (set_alt_names (set_num_alternatives (copy_fields M (meta0 (lit "wmd"))) (num_alternatives M))
                               (alt_names M)));
-      [|apply alt_name_lines_hdr_ok; apply Hn|exact Hrest|now apply alt_names_roundtrip_fresh].
+      [|apply alt_name_lines_hdr_ok; apply Hn|exact Hrest|now apply alt_names_roundtrip_fresh_rl].
     (* the first edge line stops the header loop *)
     destruct es as [|e r] eqn:Ees; [contradiction|]. cbn [elines map].
     rewrite wmd_header_stop; [reflexivity|].
@@ -444,13 +589,13 @@ Section WmdProofs.
     now inversion Hgood.
   Qed.
 
-  Theorem parse_file_lines t i : forallb is_space t = true -> wf_wmd i ->
+  Theorem parse_file_lines_rl t i : forallb is_space t = true -> wf_wmd_rl i ->
     wmd_parse W read_w false false (meta0 (lit "wmd")) (map (fun l => l ++ t) (file_lines i)) = Ok (reparsed i).
   Proof.
     intros Ht H. pose proof H as [(Hdt & Hf & Hn & Hg & Hw & Hne & Hnz) Hgood].
     assert (Hk : keys (sorted_weights i) = edge_keys (w_nodes i)) by now apply sorted_weights_keys.
     unfold wmd_parse. cbn [data_type meta0]. rewrite teqb_refl.
-    rewrite (header_file_lines t i Ht H). cbn [rbind fst snd].
+    rewrite (header_file_lines_rl t i Ht H). cbn [rbind fst snd].
     rewrite (reparsed_meta_eq (w_meta i) (alt_names (w_meta i)) (num_alternatives (w_meta i)) Hn eq_refl eq_refl).
     rewrite (parse_edges_elines_t t Ht) by now apply sorted_weights_good. rewrite fold_add_edge_split. cbn [rbind fst snd].
     rewrite Hk. fold (rebuilt (w_nodes i)).
@@ -460,20 +605,20 @@ Section WmdProofs.
   Qed.
 
   (* header_only=True: the header fields and the NUMBER EDGES value of the file, an empty graph *)
-  Theorem parse_file_lines_header_only t i : forallb is_space t = true -> wf_wmd i ->
+  Theorem parse_file_lines_header_only_rl t i : forallb is_space t = true -> wf_wmd_rl i ->
     wmd_parse W read_w false true (meta0 (lit "wmd")) (map (fun l => l ++ t) (file_lines i)) =
     Ok (mkW (reparsed_meta (w_meta i)) (w_num_edges i) [] []).
   Proof.
     intros Ht H. pose proof H as [(Hdt & Hf & Hn & Hg & Hw & Hne & Hnz) Hgood].
     unfold wmd_parse. cbn [data_type meta0]. rewrite teqb_refl.
-    rewrite (header_file_lines t i Ht H). cbn [rbind fst snd].
+    rewrite (header_file_lines_rl t i Ht H). cbn [rbind fst snd].
     now rewrite (reparsed_meta_eq (w_meta i) (alt_names (w_meta i)) (num_alternatives (w_meta i)) Hn eq_refl eq_refl).
   Qed.
 
   (* ============================================================================================== *)
   (* 6. the re-parsed instance has the same content                                                 *)
   (* ============================================================================================== *)
-  Lemma reparsed_weights_get i k : wf_wmd i ->
+  Lemma reparsed_weights_get_rl i k : wf_wmd_rl i ->
     assoc_get peqb k (w_weights (reparsed i)) = assoc_get peqb k (w_weights i).
   Proof.
     intros [(_ & _ & _ & Hg & [D E] & _) _]. cbn [reparsed w_weights]. unfold sorted_weights.
@@ -495,7 +640,7 @@ Section WmdProofs.
   Qed.
 
   (* what C09 claims about the instance i' obtained by parsing the file written from i *)
-  Definition same_content (i i' : winst) : Prop :=
+  Definition same_content_rl (i i' : winst) : Prop :=
     (* all header fields, the alternative names (same dict, same order) and num_alternatives are those
        of i; num_voters = num_alternatives *)
     w_meta i' = reparsed_meta (w_meta i) /\
@@ -511,20 +656,20 @@ Section WmdProofs.
     w_num_edges i' = N.of_nat (List.length (all_edges (w_nodes i'))) /\
     w_num_edges i' = w_num_edges i /\
     (* and i' is again a well-formed instance *)
-    wf_wmd i'.
+    wf_wmd_rl i'.
 
-  Lemma reparsed_meta_fields M : wf_fields M -> wf_fields (reparsed_meta M).
+  Lemma reparsed_meta_fields_rl M : wf_fields_rl M -> wf_fields_rl (reparsed_meta M).
   Proof. destruct M. exact (fun H => H). Qed.
 
-  Lemma reparsed_wf i : wf_wmd i -> wf_wmd (reparsed i).
+  Lemma reparsed_wf_rl i : wf_wmd_rl i -> wf_wmd_rl (reparsed i).
   Proof.
     intros [(Hdt & Hf & Hn & Hg & Hw & Hne & Hnz) Hgood].
     assert (Hk : keys (sorted_weights i) = edge_keys (w_nodes i)) by now apply sorted_weights_keys.
     split; [|now apply sorted_weights_good].
-    unfold wf_core. cbn [reparsed w_meta w_nodes w_weights w_num_edges].
+    unfold wf_core_rl. cbn [reparsed w_meta w_nodes w_weights w_num_edges].
     split; [|split; [|split; [|split; [|split; [|split]]]]].
     - destruct (w_meta i). exact Hdt.
-    - now apply reparsed_meta_fields.
+    - now apply reparsed_meta_fields_rl.
     - destruct (w_meta i). exact Hn.
     - apply rebuilt_wf.
     - unfold wf_weights, reparsed. cbn [w_weights w_nodes]. split.
@@ -538,26 +683,26 @@ Section WmdProofs.
       now rewrite C.
   Qed.
 
-  Theorem reparsed_same_content i : wf_wmd i -> same_content i (reparsed i).
+  Theorem reparsed_same_content_rl i : wf_wmd_rl i -> same_content_rl i (reparsed i).
   Proof.
     intros H. pose proof H as [(Hdt & Hf & Hn & Hg & Hw & Hne & Hnz) Hgood].
     assert (Hg' : wf_nmap (rebuilt (w_nodes i))) by apply rebuilt_wf.
-    unfold same_content. split; [|split; [|split; [|split; [|split; [|split; [|split]]]]]].
+    unfold same_content_rl. split; [|split; [|split; [|split; [|split; [|split; [|split]]]]]].
     - reflexivity.
     - intros n m. apply rebuilt_nbrs.
-    - intros k. now apply reparsed_weights_get.
+    - intros k. now apply reparsed_weights_get_rl.
     - intros [[n m] w]. rewrite !wedges_In; [|apply Hg|apply Hg'].
-      rewrite reparsed_weights_get by exact H. cbn [reparsed w_nodes]. now rewrite rebuilt_nbrs.
+      rewrite reparsed_weights_get_rl by exact H. cbn [reparsed w_nodes]. now rewrite rebuilt_nbrs.
     - intros n. apply rebuilt_keys.
     - apply num_stored_length.
     - cbn [reparsed w_num_edges]. rewrite rebuilt_num_stored by exact Hg. now symmetry.
-    - now apply reparsed_wf.
+    - now apply reparsed_wf_rl.
   Qed.
 
   (* ============================================================================================== *)
   (* 7. writing the re-parsed instance reproduces the file                                          *)
   (* ============================================================================================== *)
-  Theorem write_reparsed i : wf_wmd i -> wmd_write W show_w (reparsed i) = wmd_write W show_w i.
+  Theorem write_reparsed_rl i : wf_wmd_rl i -> wmd_write W show_w (reparsed i) = wmd_write W show_w i.
   Proof.
     intros H. pose proof H as [(Hdt & Hf & Hn & Hg & Hw & Hne & Hnz) Hgood].
     unfold wmd_write. cbn [reparsed w_meta w_nodes w_weights].
@@ -576,13 +721,78 @@ Section WmdProofs.
   (* ============================================================================================== *)
   (* 8. the theorems of C09                                                                         *)
   (* ============================================================================================== *)
-  Theorem roundtrip_readlines i : wf_wmd i ->
+  Theorem roundtrip_readlines_rl i : wf_wmd_rl i ->
     wmd_parse W read_w false false (meta0 (lit "wmd")) (readlines (wmd_write W show_w i)) = Ok (reparsed i).
   Proof.
     intros H. rewrite wmd_write_lines. rewrite readlines_unlines.
-    - now apply (parse_file_lines nl).
-    - apply forallb_no_nlcr. now apply file_lines_no_break.
+    - now apply (parse_file_lines_rl nl).
+    - now apply file_lines_no_nlcr.
   Qed.
+
+  Theorem header_only_readlines_rl i : wf_wmd_rl i ->
+    wmd_parse W read_w false true (meta0 (lit "wmd")) (readlines (wmd_write W show_w i)) =
+    Ok (mkW (reparsed_meta (w_meta i)) (w_num_edges i) [] []).
+  Proof.
+    intros H. rewrite wmd_write_lines. rewrite readlines_unlines.
+    - now apply (parse_file_lines_header_only_rl nl).
+    - now apply file_lines_no_nlcr.
+  Qed.
+
+  Theorem roundtrip_rl i : wf_wmd_rl i ->
+    exists i', wmd_parse W read_w false false (meta0 (lit "wmd")) (readlines (wmd_write W show_w i)) = Ok i'
+               /\ same_content_rl i i'.
+  Proof.
+    intros H. exists (reparsed i). split; [now apply roundtrip_readlines_rl|now apply reparsed_same_content_rl].
+  Qed.
+
+  Theorem idempotent_rl i i' : wf_wmd_rl i ->
+    wmd_parse W read_w false false (meta0 (lit "wmd")) (readlines (wmd_write W show_w i)) = Ok i' ->
+    wmd_write W show_w i' = wmd_write W show_w i.
+  Proof.
+    intros H P. rewrite roundtrip_readlines_rl in P by exact H. injection P as <-. now apply write_reparsed_rl.
+  Qed.
+
+  (* ============================================================================================== *)
+  (* 8b. the same for the stronger text condition wf_field (no str.splitlines boundary at all), which  *)
+  (*     also covers parse_str; names kept for Proofs/EntryFiles.v                                    *)
+  (* ============================================================================================== *)
+  Definition same_content (i i' : winst) : Prop :=
+    w_meta i' = reparsed_meta (w_meta i) /\
+    (forall n m, In m (nbrs (w_nodes i') n) <-> In m (nbrs (w_nodes i) n)) /\
+    (forall k, assoc_get peqb k (w_weights i') = assoc_get peqb k (w_weights i)) /\
+    (forall e, In e (wedges i') <-> In e (wedges i)) /\
+    (forall n, In n (keys (w_nodes i')) <-> incident (w_nodes i) n) /\
+    w_num_edges i' = N.of_nat (List.length (all_edges (w_nodes i'))) /\
+    w_num_edges i' = w_num_edges i /\
+    wf_wmd i'.
+
+  Lemma reparsed_meta_fields M : wf_fields M -> wf_fields (reparsed_meta M).
+  Proof. destruct M. exact (fun H => H). Qed.
+
+  Lemma reparsed_wf i : wf_wmd i -> wf_wmd (reparsed i).
+  Proof.
+    intros H. pose proof (reparsed_wf_rl i (wf_wmd_weaken i H)) as [(Hdt & _ & _ & R) G].
+    destruct H as [(_ & Hf & Hn & _) _]. split; [|exact G].
+    split; [exact Hdt|]. split; [now apply reparsed_meta_fields|]. split; [|exact R].
+    cbn [reparsed w_meta]. destruct (w_meta i). exact Hn.
+  Qed.
+
+  Theorem reparsed_same_content i : wf_wmd i -> same_content i (reparsed i).
+  Proof.
+    intros H. pose proof (reparsed_same_content_rl i (wf_wmd_weaken i H)) as (A & B & C & D & E & F & G & _).
+    repeat (split; [assumption|]). now apply reparsed_wf.
+  Qed.
+
+  Theorem write_reparsed i : wf_wmd i -> wmd_write W show_w (reparsed i) = wmd_write W show_w i.
+  Proof. intros H. now apply write_reparsed_rl, wf_wmd_weaken. Qed.
+
+  Theorem parse_file_lines t i : forallb is_space t = true -> wf_wmd i ->
+    wmd_parse W read_w false false (meta0 (lit "wmd")) (map (fun l => l ++ t) (file_lines i)) = Ok (reparsed i).
+  Proof. intros Ht H. now apply parse_file_lines_rl, wf_wmd_weaken. Qed.
+
+  Theorem roundtrip_readlines i : wf_wmd i ->
+    wmd_parse W read_w false false (meta0 (lit "wmd")) (readlines (wmd_write W show_w i)) = Ok (reparsed i).
+  Proof. intros H. now apply roundtrip_readlines_rl, wf_wmd_weaken. Qed.
 
   Theorem roundtrip_splitlines i : wf_wmd i ->
     wmd_parse W read_w false false (meta0 (lit "wmd")) (splitlines (wmd_write W show_w i)) = Ok (reparsed i).
@@ -595,11 +805,7 @@ Section WmdProofs.
   Theorem header_only_readlines i : wf_wmd i ->
     wmd_parse W read_w false true (meta0 (lit "wmd")) (readlines (wmd_write W show_w i)) =
     Ok (mkW (reparsed_meta (w_meta i)) (w_num_edges i) [] []).
-  Proof.
-    intros H. rewrite wmd_write_lines. rewrite readlines_unlines.
-    - now apply (parse_file_lines_header_only nl).
-    - apply forallb_no_nlcr. now apply file_lines_no_break.
-  Qed.
+  Proof. intros H. now apply header_only_readlines_rl, wf_wmd_weaken. Qed.
 
   Theorem roundtrip i : wf_wmd i ->
     exists i', wmd_parse W read_w false false (meta0 (lit "wmd")) (readlines (wmd_write W show_w i)) = Ok i'
@@ -611,8 +817,32 @@ Section WmdProofs.
   Theorem idempotent i i' : wf_wmd i ->
     wmd_parse W read_w false false (meta0 (lit "wmd")) (readlines (wmd_write W show_w i)) = Ok i' ->
     wmd_write W show_w i' = wmd_write W show_w i.
+  Proof. intros H. now apply idempotent_rl, wf_wmd_weaken. Qed.
+
+  (* ============================================================================================== *)
+  (* 8c. no written line is mis-classified by the header loop, whatever the values contain ('#', ':',  *)
+  (*     ',', digits, a complete fake header or edge line): a header line stays a header line of ITS   *)
+  (*     kind because its fixed prefix comes first, an edge line starts with a digit or '-'            *)
+  (* ============================================================================================== *)
+  Theorem lines_classified i : wf_wmd_rl i ->
+    (* metadata, NUMBER ALTERNATIVES and name lines: '#' lines that are not the NUMBER EDGES line *)
+    Forall hdr_ok (meta_lines (w_meta i) ++ [count_alts_line (num_alternatives (w_meta i))] ++
+                   alt_name_lines (alt_names (w_meta i))) /\
+    (* the NUMBER EDGES line is recognised as such and carries its number *)
+    (is_hash_line (strip (count_edges_line (w_num_edges i))) = true /\
+     startswith (lit "# NUMBER EDGES") (strip (count_edges_line (w_num_edges i))) = true /\
+     py_int (drop 15 (strip (count_edges_line (w_num_edges i)))) = Ok (w_num_edges i)) /\
+    (* edge lines are never taken for header lines *)
+    Forall (fun l => is_hash_line (strip (l ++ nl)) = false) (elines (sorted_weights i)).
   Proof.
-    intros H P. rewrite roundtrip_readlines in P by exact H. injection P as <-. now apply write_reparsed.
+    intros [(_ & Hf & [Hn _] & _) Hgood]. split; [|split].
+    - apply Forall_app. split; [now apply meta_lines_hdr_ok|]. apply Forall_app. split.
+      + constructor; [apply count_alts_hdr_ok|constructor].
+      + now apply alt_name_lines_hdr_ok.
+    - rewrite strip_count_edges_line. split; [reflexivity|]. split; [reflexivity|apply py_int_sp_show_N].
+    - apply sorted_weights_good in Hgood. fold (sorted_weights i) in Hgood. unfold elines.
+      apply Forall_forall. intros l Hl. apply in_map_iff in Hl as [e [<- He]]. apply eline_not_hash.
+      rewrite Forall_forall in Hgood. now apply Hgood.
   Qed.
 
 End WmdProofs.
@@ -657,6 +887,29 @@ Section WmdCodec.
     wmd_parse W read_w false true (meta0 (lit "wmd")) (readlines (wmd_write W show_w i)) =
     Ok (mkW (reparsed_meta (w_meta i)) (w_num_edges i) [] []).
   Proof. intros H. now apply header_only_readlines, wf_core_wf. Qed.
+
+  (* the file path with the weaker text condition *)
+  Lemma wf_core_rl_wf (i : winst W) : wf_core_rl W i -> wf_wmd_rl W show_w read_w i.
+  Proof. intros H. split; [exact H|]. apply Forall_forall. intros e _. apply codec_good. Qed.
+
+  Theorem codec_roundtrip_rl i : wf_core_rl W i ->
+    exists i', wmd_parse W read_w false false (meta0 (lit "wmd")) (readlines (wmd_write W show_w i)) = Ok i'
+               /\ same_content_rl W show_w read_w i i'.
+  Proof. intros H. now apply roundtrip_rl, wf_core_rl_wf. Qed.
+
+  Theorem codec_idempotent_rl i i' : wf_core_rl W i ->
+    wmd_parse W read_w false false (meta0 (lit "wmd")) (readlines (wmd_write W show_w i)) = Ok i' ->
+    wmd_write W show_w i' = wmd_write W show_w i.
+  Proof. intros H. now apply idempotent_rl, wf_core_rl_wf. Qed.
+
+  Theorem codec_roundtrip_readlines_rl i : wf_core_rl W i ->
+    wmd_parse W read_w false false (meta0 (lit "wmd")) (readlines (wmd_write W show_w i)) = Ok (reparsed W i).
+  Proof. intros H. now apply roundtrip_readlines_rl, wf_core_rl_wf. Qed.
+
+  Theorem codec_header_only_rl i : wf_core_rl W i ->
+    wmd_parse W read_w false true (meta0 (lit "wmd")) (readlines (wmd_write W show_w i)) =
+    Ok (mkW (reparsed_meta (w_meta i)) (w_num_edges i) [] []).
+  Proof. intros H. now apply header_only_readlines_rl, wf_core_rl_wf. Qed.
 End WmdCodec.
 
 (* ================================================================================================ *)
@@ -694,3 +947,22 @@ Theorem tok_idempotent i i' : wf_tok i ->
   wmd_parse_tok false false (meta0 (lit "wmd")) (readlines (wmd_write_tok i)) = Ok i' ->
   wmd_write_tok i' = wmd_write_tok i.
 Proof. intros H. apply idempotent. now apply wf_tok_wf. Qed.
+
+(* the file path with the weaker text condition, on the extracted instantiation *)
+Definition wf_tok_rl (i : twinst) : Prop :=
+  wf_core_rl text i /\ Forall (fun e => tok_ok (snd e) = true) (w_weights i).
+
+Lemma wf_tok_rl_wf i : wf_tok_rl i -> wf_wmd_rl text tok_show tok_read i.
+Proof.
+  intros [H F]. split; [exact H|]. rewrite Forall_forall in *. intros e He. apply tok_ok_good. now apply F.
+Qed.
+
+Theorem tok_roundtrip_rl i : wf_tok_rl i ->
+  exists i', wmd_parse_tok false false (meta0 (lit "wmd")) (readlines (wmd_write_tok i)) = Ok i'
+             /\ same_content_rl text tok_show tok_read i i'.
+Proof. intros H. apply roundtrip_rl. now apply wf_tok_rl_wf. Qed.
+
+Theorem tok_idempotent_rl i i' : wf_tok_rl i ->
+  wmd_parse_tok false false (meta0 (lit "wmd")) (readlines (wmd_write_tok i)) = Ok i' ->
+  wmd_write_tok i' = wmd_write_tok i.
+Proof. intros H. apply idempotent_rl. now apply wf_tok_rl_wf. Qed.
